@@ -11,6 +11,8 @@ src/biogeme/partition.py).
       code does around it is the function `sampleAlternatives` / `sampleMev`
 * `ChoiceSetsGeneration.process_row / define_new_variables` : `flattenRow`, `defineVars`
 * `GenerateModel.get_logit`       : `sampledLL` ; the model on the full choice set: `fullLL`
+* `GenerateModel.get_nested_logit`: `nestedSampledLL` (the dictionary of MEV sums included) ;
+                                    `models.lognested` on the full choice set: `fullNestedLL`
 
 Alternative ids are integers; sets are duplicate-free lists.  Core Lean only.
 -/
@@ -321,6 +323,108 @@ def altUtility (ind : List (String × α)) (altCols : List String) (altRow : Lis
     (combined : List (String × Formula α)) (u : Formula α) : Option α := do
   let env ← altEnv ind altCols altRow combined
   u.eval (lookupLast env)
+
+/-! ## `GenerateModel.get_nested_logit` and the nested logit on the full choice set
+
+The generated model is written once over the type `ι` of what identifies an alternative in a row:
+`ι = α` with `belongs` on a merged row of the database (the engine's `BelongsTo` compares reals),
+`ι = Int` with `List.contains` in the theorems. -/
+
+/-- one nest: value of the nest parameter and `list_of_alternatives`.  The label of a nest
+(`name`) is not part of the generated model. -/
+structure Nest (α : Type) where
+  mu : α
+  alts : List Int
+
+/-- `BelongsTo(Variable(id column), set(list_of_alternatives))` on a number -/
+def belongs (alts : List Int) (x : α) : Bool := alts.any fun a => Num.eq (Num.int a) x
+
+section generic
+variable {ι : Type}
+
+/-- value of `dict_of_mev_sums[...]` for one nest: the `ConditionalSum`, over the rows
+`(alternative, weight, utility)` of the second sample that belong to the nest, of
+`weight * exp(mu * utility)` -/
+def nestMevSum (mem : List Int → ι → Bool) (mev : List (ι × α × α)) (n : Nest α) : α :=
+  Num.sum ((mev.filter fun r => mem n.alts r.1).map fun r => r.2.1 * Num.exp (n.mu * r.2.2))
+
+/-- `dict_of_mev_sums`, filled nest after nest, key `tuple(nest.list_of_alternatives)` -/
+def mevSumsDict (mem : List Int → ι → Bool) (mev : List (ι × α × α)) (nests : List (Nest α)) :
+    List (List Int × α) :=
+  nests.map fun n => (n.alts, nestMevSum mem mev n)
+
+/-- reading a Python dict built by successive assignments: the last assignment of the key wins,
+an absent key is a `KeyError` (`none`) -/
+def dictGet : List (List Int × α) → List Int → Option α
+  | [], _ => none
+  | (k, v) :: t, key =>
+    match dictGet t key with
+    | some w => some w
+    | none => if k = key then some v else none
+
+/-- `dict_of_mev_terms[i]`: the sum, over the nests the alternative of the row belongs to, of
+`(mu − 1)·V + (1/mu − 1)·log(dict_of_mev_sums[tuple(alternatives of the nest)])` -/
+def nestedTerm (mem : List Int → ι → Bool) (dict : List (List Int × α)) (nests : List (Nest α))
+    (id : ι) (v : α) : Option α := do
+  let terms ← nests.mapM fun n => do
+    let s ← dictGet dict n.alts
+    pure (mem n.alts id, (n.mu - 1) * v + (1 / n.mu - 1) * Num.log s)
+  pure (Num.sum ((terms.filter (·.1)).map (·.2)))
+
+/-- `loglogit` on `V_i − _log_proba_i + dict_of_mev_terms[i]`, rows `(alternative, V, correction)`
+of the main sample (chosen first), rows `(alternative, weight, V)` of the second sample -/
+def nestedLogitRows (mem : List Int → ι → Bool) (nests : List (Nest α))
+    (rows : List (ι × α × α)) (mev : List (ι × α × α)) : Option α := do
+  let dict := mevSumsDict mem mev nests
+  let cs ← rows.mapM fun r => do
+    let t ← nestedTerm mem dict nests r.1 r.2.1
+    pure (r.2.1 - r.2.2 + t)
+  logLogitFirst cs
+
+end generic
+
+/-- `get_nested_logit` evaluated on one merged row of the database.  Without a second partition
+the code takes the utilities 1..J−1 of the main sample for the MEV sums and reads the weights from
+columns `_mev_weight_<i>`, which do not exist (`none`: the engine refuses the variable). -/
+def nestedSampledLL (attributes : List String) (u : Formula α) (idCol : String) (J : Nat)
+    (J2 : Option Nat) (nests : List (Nest α)) (row : List (String × α)) : Option α := do
+  let env := lookupLast row
+  let rows ← (List.range J).mapM fun i => do
+    let id ← env (colKey "" idCol i)
+    let v ← (utilityOf attributes u i).eval env
+    let lp ← env (colKey "" "_log_proba" i)
+    pure (id, v, lp)
+  let pre := match J2 with
+    | none => ""
+    | some _ => "_MEV_"
+  let idx := match J2 with
+    | none => (List.range J).tail
+    | some j2 => List.range j2
+  let mev ← idx.mapM fun j => do
+    let id ← env (colKey pre idCol j)
+    let w ← env (colKey pre "_mev_weight" j)
+    let v ← (u.rename attributes pre ("_" ++ toString j)).eval env
+    pure (id, w, v)
+  nestedLogitRows belongs nests rows mev
+
+/-- abstract form used by the equivalence theorem: main rows `(alternative, correction)`, second
+sample `(alternative, weight)`, `U` = utility of an alternative for the individual at hand -/
+def nestedSampledLLAbs (U : Int → α) (nests : List (Nest α)) (rows : List (Int × α))
+    (mev : List (Int × α)) : Option α :=
+  nestedLogitRows (fun l a => l.contains a) nests
+    (rows.map fun r => (r.1, U r.1, r.2)) (mev.map fun r => (r.1, r.2, U r.1))
+
+/-- `get_mev_for_nested`: ln ∂G/∂y_a for the nested logit on the full choice set — for the nest
+containing `a`, `(mu − 1)·U_a + (1/mu − 1)·log Σ_{b ∈ nest} exp(mu·U_b)`; 0 for an alternative
+alone (the nests are disjoint: at most one term) -/
+def nestedLogG (U : Int → α) (nests : List (Nest α)) (a : Int) : α :=
+  Num.sum ((nests.filter fun n => n.alts.contains a).map fun n =>
+    (n.mu - 1) * U a + (1 / n.mu - 1) * Num.log (Num.sum (n.alts.map fun b => Num.exp (n.mu * U b))))
+
+/-- `lognested(V, None, nests, choice)` = `logmev`: logit on `U_a + ln G_a` over the full choice set -/
+def fullNestedLL (U : Int → α) (nests : List (Nest α)) (alts : List Int) (chosen : Int) : α :=
+  (U chosen + nestedLogG U nests chosen) -
+    Num.log (Num.sum (alts.map fun a => Num.exp (U a + nestedLogG U nests a)))
 
 end num
 
